@@ -52,11 +52,18 @@ fn programs() -> Vec<Prog> {
     ]
 }
 
+/// Sessions run with runtime warnings on: what has been warned about is session history too.
+fn mk_sess() -> Sess {
+    let mut s = Sess::new();
+    s.it.enable_warnings = true;
+    s
+}
+
 fn common_events() -> Vec<Ev> {
     let mut v: Vec<Ev> = [
         "X=5", "S$=\"z\"", "DIM A(3)", "A(1)=2", "FOR I=1 TO 9", "READ Q", "RUN", "CONT", "PRINT 1/0", "INPUT X",
         // program edits: the probe compares with a fresh interpreter holding the *edited* program
-        "50", "50 DATA 33,44", "15 PRINT \"e\";", "IF 1 THEN PRINT (((1/0)))",
+        "50", "50 DATA 33,44", "15 PRINT \"e\";", "IF 1 THEN PRINT (((1/0)))", "25 PRINT \"x\";: DATA 7",
         // moves the generator away from its initial state
         "Y=RND(1)",
     ]
@@ -89,7 +96,7 @@ fn drive_run_as(s: &mut Sess, cmd: &str) -> (Vec<String>, VerifState) {
 
 pub fn run(thorough: bool) -> Report {
     let mut rep = Report::new("C10", "model_checking");
-    let depth = if thorough { 8 } else { 6 };
+    let depth = if thorough { 9 } else { 6 };
     let mut total_states = 0u64;
     let mut total_trans = 0u64;
     let mut probes = 0u64;
@@ -103,7 +110,7 @@ pub fn run(thorough: bool) -> Report {
         }
         // Reference: fresh interpreter with the same program.
         let fresh = {
-            let mut s = Sess::new();
+            let mut s = mk_sess();
             for e in &root {
                 let _ = s.apply(e);
             }
@@ -117,7 +124,7 @@ pub fn run(thorough: bool) -> Report {
                 return vec![];
             }
             probe_count.fetch_add(1, std::sync::atomic::Ordering::Relaxed);
-            let mk = || Sess::new();
+            let mk = || mk_sess();
             let mut out = vec![];
             for cmd in RUN_SPELLINGS {
                 let mut s = replay(&mk, hist);
@@ -127,7 +134,7 @@ pub fn run(thorough: bool) -> Report {
                     l.recs.clear();
                     let _ = l.apply(&Ev::Line("LIST".into()));
                     let lines: Vec<String> = l.recs.iter().filter_map(|r| if let Rec::Print(p) = r { Some(p.trim_end_matches('\n').to_string()) } else { None }).collect();
-                    let mut f = Sess::new();
+                    let mut f = mk_sess();
                     for line in &lines {
                         let _ = f.apply(&Ev::Line(line.clone()));
                     }
@@ -193,7 +200,7 @@ pub fn run(thorough: bool) -> Report {
             }
             vec![]
         };
-        let mk = || Sess::new();
+        let mk = || mk_sess();
         let (stats, viol) = bfs(&mk, &[root.clone()], &alpha, depth, &check, Some(&probe), 20_000_000);
         if stats.events_enabled.len() < alpha.len() {
             machinery("vacuous: not every history event was enabled");
